@@ -34,6 +34,8 @@ var profiles = map[string]Profile{
 	"legacy":    {Name: "legacy", Clients: 3, Resources: 4, Stimuli: 20, Refs: true, Collections: true, Unsub: true, Clean: true, Legacy: true},
 	"legacyacc": {Name: "legacyacc", Clients: 2, Resources: 4, Stimuli: 22, Refs: true, Collections: true, Unsub: true, Reaccess: true, Tokens: true, Resets: true, Denials: true, Clean: true, Legacy: true},
 	"scgraph":   {Name: "scgraph", Clients: 2, Resources: 5, Refs: true, Collections: true, Unsub: true, Scenario: "graph"},
+	"sclimit":   {Name: "sclimit", Clients: 1, Resources: 2, Unsub: true, Scenario: "limit"},
+	"resetf":    {Name: "resetf", Clients: 2, Resources: 4, Stimuli: 22, Refs: true, Collections: true, Unsub: true, Resets: true, Clean: true, ResetFaults: true},
 	"reset":     {Name: "reset", Clients: 2, Resources: 4, Stimuli: 22, Refs: true, Collections: true, Unsub: true, Resets: true, Clean: true},
 	"malformed": {Name: "malformed", Clients: 2, Resources: 4, Stimuli: 26, Refs: true, Collections: true, Unsub: true, Calls: true, Malformed: true, Clean: true, Endgame: true},
 	"stop":      {Name: "stop", Clients: 3, Resources: 4, Stimuli: 20, Refs: true, Collections: true, Unsub: true, Calls: true, Disconnect: true, Evict: true, StopAt: true},
